@@ -739,6 +739,46 @@ func (c *Ctx) RuleErr() (drop, handle *Result) {
 				}
 			}
 		}
+		// (3) a predicate: the function has one result, a bool, and answers false wherever the error is
+		// not nil ("can the file be read and does it hold X"): the failure is its answer, and what the
+		// caller does on false is the caller's business
+		if !handled {
+			if pf := s.call.Parent(); pf != nil && pf.Signature.Results().Len() == 1 {
+				if bt, isB := pf.Signature.Results().At(0).Type().Underlying().(*types.Basic); isB && bt.Kind() == types.Bool {
+					nTests, allFalse := 0, true
+					for _, a := range aliases {
+						for _, r := range referrers(a) {
+							b, isBin := r.(*ssa.BinOp)
+							if !isBin || !(b.Op == token.NEQ || b.Op == token.EQL) || !(isNilConst(b.X) || isNilConst(b.Y)) {
+								continue
+							}
+							for _, br := range condBranches(b) {
+								nTests++
+								// the successor taken when the error is not nil
+								nonNilSucc := 0
+								if (b.Op == token.EQL) != br.neg {
+									nonNilSucc = 1
+								}
+								blk := br.iff.Block()
+								target := blk.Succs[nonNilSucc]
+								env := newEnvAt(blk)
+								env.enter(target, blk)
+								c.explore(target, 0, env, exploreCB{
+									ret: func(rt *ssa.Return, e *pathEnv) {
+										if bv, isC := constBool(rt.Results[0]); !isC || bv {
+											allFalse = false
+										}
+									},
+								})
+							}
+						}
+					}
+					if nTests > 0 && allFalse {
+						handled, how = true, "a predicate that answers false when the call fails"
+					}
+				}
+			}
+		}
 		handleSites = append(handleSites, s.call)
 		if handled {
 			handle.ok(key, pos, how)
@@ -958,6 +998,21 @@ func (c *Ctx) RuleErrFlags() *Result {
 			if !verdict {
 				return
 			}
+			// an option, not a verdict: the field is only ever set to a constant or to what a setter
+			// or constructor is handed (configuration that a caller chose, e.g. from a command-line flag)
+			option, computed := false, false
+			for _, st := range stores {
+				switch st.Val.(type) {
+				case *ssa.Parameter:
+					option = true
+				case *ssa.Const:
+				default:
+					computed = true
+				}
+			}
+			if option && !computed {
+				return
+			}
 			res.Instances++
 			_, tn := namedOf(fa.X.Type())
 			key := fmt.Sprintf("%s.%s:flag field", tn, f.Name())
@@ -1108,6 +1163,9 @@ func (c *Ctx) RuleErrEvent() *Result {
 		for _, d := range lm.dangling[fn] {
 			res.Instances++
 			_, level := walkEventChain(d)
+			if level == "" {
+				continue // not a log event: a zerolog.Dict() being filled, or the event handed to a Func callback
+			}
 			res.bad(load.FnName(fn)+":unterminated "+level+" event", c.P.InstrPos(d), "zerolog event at level "+level+" is never sent: it neither logs nor (for fatal) ends the process")
 		}
 	}
